@@ -563,6 +563,10 @@ def _check_new_id(repo: Repo, rep: Report):
 
 _S = "svg"
 VARIANTS = [
+    Variant("namespace allow-set kept in a module-level set that the function mutates",
+            [Edit(_S, "SVG.remove_nonsvg_content", "        good_ns = {svgns(), xlinkns()}\n", "        good_ns = _VERIF_GOOD_NS\n"),
+             Edit(_S, None, "_XLINK_TEMP = \"xlink_\"\n", "_XLINK_TEMP = \"xlink_\"\n_VERIF_GOOD_NS = {svgns(), xlinkns()}\n")],
+            [("R-EFFECT.cross-call-state", "topicosvg")]),
     Variant("iterate a set literal into attributes", [Edit(_S, "SVG.set_attributes", "            for name, value in name_values:\n                el.attrib[name] = value",
                                                           "            for name in {n for n, _ in name_values}:\n                el.attrib[name] = dict(name_values)[name]")],
             [("R-TAINT.unordered", "set_attributes")]),
